@@ -18,6 +18,12 @@ def worker_dir(w):
         os.makedirs(wd, exist_ok=True)
         rc, out = sh("git -C /repo worktree add -q --detach %s/repo HEAD" % wd); assert rc == 0, out
     sh("git checkout -q -- . && git clean -fdq", wd + "/repo")
+    # private copy of the Lean project (sources refreshed every time, build output kept)
+    os.makedirs(wd + "/lean", exist_ok=True)
+    sh("rsync -a --delete --exclude .lake %s/lean/ %s/lean/" % (ROOT, wd))
+    if not os.path.isdir(wd + "/lean/.lake"):
+        sh("cp -a %s/lean/.lake %s/lean/.lake" % (ROOT, wd))
+
     shutil.rmtree(wd + "/harness", ignore_errors=True)
     shutil.copytree(ROOT + "/harness", wd + "/harness")
     ct = open(wd + "/harness/Cargo.toml").read().replace('path = "/repo"', 'path = "../repo"')
@@ -64,7 +70,8 @@ def main():
             if rc != 0:
                 print(hid, "patch does not apply:", out); return
             r = {}
-            for pid in ([hid.split("-")[0]] if own else claimed):
+            only = [a.split("=")[1].split(",") for a in args if a.startswith("--props=")]
+            for pid in ([hid.split("-")[0]] if own else (only[0] if only else claimed)):
                 p, rc2, viol, summ = run_check(pid, wd)
                 r[p] = {"rc": rc2, "violation": viol, "summary": summ}
             alarms = sorted(p for p, x in r.items() if x["rc"] != 0)
